@@ -121,3 +121,88 @@ def spec_translation(tier='quick', seed=0, specs=(), modules=(), n=None):
 def _set_box(it, s):
     from pyvc.values import Box
     return Box('set', items=sorted(s))
+
+
+def _events_of(props):
+    evs = []
+    for p in props:
+        for e in (p.scope.activator, p.scope.terminator, p.pattern.trigger, p.pattern.behaviour):
+            if e is not None:
+                evs.append(e)
+    out = []
+    for e in evs:
+        stack = [e]
+        while stack:
+            x = stack.pop()
+            out.append(x)
+            if hasattr(x, 'event1'):
+                stack.extend([x.event2, x.event1])
+    return out
+
+
+def contracts_on_events(tier='quick', seed=0, qualnames=(), modules=()):
+    """event- and predicate-level contracts evaluated natively on every event of the property corpus"""
+    from pyvc.native import native_check
+    from pyvc.contracts import resolve_qualname, unwrap_function
+    from bounded import corpus
+    for m in modules:
+        importlib.import_module(m)
+    events = _events_of(corpus.properties(seed))
+    preds = [e.predicate for e in events if hasattr(e, 'predicate')]
+    names = ['A', 'B', 'X', 'zz']
+    cases = 0
+    violations, faults, samples = [], [], []
+    for q in qualnames:
+        mod, owner, attr, raw = resolve_qualname(q)
+        func = unwrap_function(raw)
+        params = list(inspect.signature(func).parameters)
+        pool = [x for x in events + preds if isinstance(x, owner)]
+        for recv in pool:
+            argsets = [{}] if len(params) == 1 else [{params[1]: a} for a in names]
+            for extra in argsets:
+                env = {params[0]: recv}
+                env.update(extra)
+                cases += 1
+                r = native_check(q, env)
+                if r.get('clause_error'):
+                    faults.append(f'{q}: contract clause failed natively: {r["clause_error"][:300]}')
+                if r.get('valid_input') and r.get('violated'):
+                    violations.append({'witness': f'{q}({recv!s};{extra})'[:300],
+                                       'what': f'{q} violates {r["violated"]} on {recv!s}'[:400]})
+                if len(samples) < 2:
+                    samples.append({'function': q, 'receiver': str(recv)[:80], 'outcome': r.get('outcome', '')[:100]})
+    return {'obligations_n': 0, 'discharged_n': 0, 'violations': violations[:5], 'faults': faults[:3],
+            'bounded': {'what': 'event/predicate contracts evaluated natively on the property corpus',
+                        'bound': f'{len(events)} events, {len(preds)} predicates', 'cases': cases, 'distinct': cases,
+                        'exhaustive': False}, 'samples': samples}
+
+
+def own_field_check(tier='quick', seed=0):
+    """C15 (bounded part): check_some_self_references() passes iff the predicate references the
+    current message - on parser-built predicates (the proof of this clause is not built)"""
+    from bounded import corpus
+    from specs.tree import mentions_this
+    from hpl.ast.predicates import HplPredicateExpression
+    from hpl.errors import HplSanityError
+    n = 2000 if tier == 'thorough' else 300
+    cases = 0
+    violations = []
+    for e in corpus.expressions(seed, n, 3):
+        if not e.can_be_bool:
+            continue
+        try:
+            p = HplPredicateExpression(e)
+        except Exception:
+            continue
+        cases += 1
+        try:
+            p.check_some_self_references()
+            ok = True
+        except HplSanityError:
+            ok = False
+        if ok != mentions_this(p.expression):
+            violations.append({'witness': f'own_field({p!s})', 'what': f'own-field check {"passes" if ok else "fails"} on {p!s}'})
+    return {'obligations_n': 0, 'discharged_n': 0, 'violations': violations[:5], 'faults': [],
+            'bounded': {'what': 'own-field check vs "references the current message" on parsed predicates',
+                        'bound': f'{cases} predicates (depth <= 3)', 'cases': cases, 'distinct': cases, 'exhaustive': False},
+            'samples': [{'note': 'check_some_self_references compared with mentions_this'}]}
